@@ -49,10 +49,12 @@ func (s *Sender) Run(ctx context.Context) {
 			// TODO do backoff
 			timer := time.NewTimer(1 * time.Second)
 			for {
+				// Wait for a new stream only while none is pending, and for the cancellation of the
+				// pending stream only; a channel left over from an earlier round must not be selected.
 				if stream == nil {
-					sink = s.Sink
+					sink, streamCancel = s.Sink, nil
 				} else {
-					streamCancel = stream.Ctx.Done()
+					sink, streamCancel = nil, stream.Ctx.Done()
 				}
 				select {
 				case <-ctx.Done():
